@@ -228,9 +228,9 @@ func (c *clientOps) VerifYield(point string) {
 // ---- cases
 
 type lookup struct {
-	Mod     int  // index into mods; >= len(mods): private module
-	Ver     int  // version counter
-	GoMod   bool
+	Mod   int // index into mods; >= len(mods): private module
+	Ver   int // version counter
+	GoMod bool
 }
 
 type c14Case struct {
@@ -242,10 +242,26 @@ type c14Case struct {
 	History  []string     // when non-empty: replay exactly this schedule
 }
 
-var patternLists = []string{"", "private.example.com", "*.corp.example.com,private.example.com/x", "corp.example.com/secret,git.corp.example.com/*", "private.example.com,,corp.example.com/*/y"}
+var patternLists = []string{"", "private.example.com", "*.corp.example.com,private.example.com/x", "corp.example.com/secret,git.corp.example.com/*", "private.example.com,,corp.example.com/*/y",
+	// malformed globs (they match nothing) before, between and after patterns that match
+	"[,private.example.com", "x[,*.corp.example.com,private.example.com/x", "corp.example.com/[b-,corp.example.com/secret,git.corp.example.com", "private.example.com/x\\,git.corp.example.com/*,[]", "[a-,[,private.example.com,corp.example.com/*/y",
+	// escapes, classes, trailing slashes
+	"private\\.example\\.com", "[p]rivate.example.com/,?it.corp.example.com/z/", "*/secret,*/*/y"}
+
+// genPrewarm: mostly a handful of records; sometimes enough that one authenticated read spans many tiles
+// (about 40 records at tile height 1, a few hundred at height 2).
+func genPrewarm(t *rapid.T) int {
+	switch rapid.IntRange(0, 5).Draw(t, "prewarmk") {
+	case 0:
+		return rapid.IntRange(30, 70).Draw(t, "prewarmmid")
+	case 1:
+		return []int{127, 128, 255, 300, 511, 600}[rapid.IntRange(0, 5).Draw(t, "prewarmbig")]
+	}
+	return rapid.IntRange(0, 9).Draw(t, "prewarm")
+}
 
 func genCase(t *rapid.T) *c14Case {
-	c := &c14Case{H: []int{1, 2, 2, 3}[gen.Uniform(t, 4, "h")], Prewarm: rapid.IntRange(0, 9).Draw(t, "prewarm"), Patterns: patternLists[gen.Uniform(t, len(patternLists), "patterns")]}
+	c := &c14Case{H: []int{1, 2, 2, 3}[gen.Uniform(t, 4, "h")], Prewarm: genPrewarm(t), Patterns: patternLists[gen.Uniform(t, len(patternLists), "patterns")]}
 	nc := []int{1, 1, 2, 2, 3}[gen.Uniform(t, 5, "nclients")]
 	for ci := 0; ci < nc; ci++ {
 		ng := rapid.IntRange(2, 5).Draw(t, "ngor")
@@ -273,7 +289,7 @@ func genCase(t *rapid.T) *c14Case {
 }
 
 func okCase(c *c14Case) bool {
-	if c.H < 1 || c.H > 8 || c.Prewarm < 0 || c.Prewarm > 40 || len(c.Work) == 0 || len(c.Work) > 4 || len(c.Choices) > 2000 || len(c.History) > 5000 {
+	if c.H < 1 || c.H > 8 || c.Prewarm < 0 || c.Prewarm > 2000 || len(c.Work) == 0 || len(c.Work) > 4 || len(c.Choices) > 2000 || len(c.History) > 5000 {
 		return false
 	}
 	for _, gs := range c.Work {
@@ -554,7 +570,7 @@ func TestRaceStress(t *testing.T) {
 		return int((seed >> 33) % uint64(n))
 	}
 	for r := 0; r < rounds; r++ {
-		c := &c14Case{H: 1 + next(3), Prewarm: next(10), Patterns: patternLists[next(len(patternLists))]}
+		c := &c14Case{H: 1 + next(3), Prewarm: []int{next(10), next(10), next(10), 30 + next(40), 100 + next(500)}[next(5)], Patterns: patternLists[next(len(patternLists))]}
 		nc := 1 + next(3)
 		for ci := 0; ci < nc; ci++ {
 			var gs [][]lookup
